@@ -415,8 +415,9 @@ def r09_5(ctx):
     """R09.5 accepted trees evaluate without ValueError: every int()/float() conversion of a symbol value in the
     evaluators is a checked conversion (validity predicate, handler, or a value validated when it was stored) - a range
     bound or `set` value may be any symbol, including non-numeric ones."""
-    from .common import checked_conversions
+    from .common import checked_conversions, formatter_args_are_numbers
     checked_conversions(ctx, [f"{CORE}:Symbol.str_value"])
+    formatter_args_are_numbers(ctx, [f"{CORE}:Symbol.str_value", f"{CORE}:Kconfig._header_string"])
     repo = ctx.repo
     ev = repo.func(f"{CORE}:expr_value")
     construct = "expr_value/number conversion failures fall back to string comparison"
